@@ -111,7 +111,8 @@ def depth_probe():
 
 
 def strict_ref_law(s):
-    """SPDX proper: the idstring of a LicenseRef is not empty.  (Judgement call D37, see c19.py: scheduled only when registered.)"""
+    """SPDX proper: the idstring of a LicenseRef is not empty - an expression with a token 'LicenseRef-' / 'licenseref-+' (any ASCII case)
+    is rejected, wherever the token stands (fix 8e6ceae)."""
     got = run(s)
     if got is not None and gen_lic.empty_ref_tokens(s):
         return "empty LicenseRef idstring accepted: %r -> %r" % (s, got)
